@@ -1,5 +1,6 @@
 import GoSquare.Proofs.C04Core
 import GoSquare.Proofs.BlobRange
+import GoSquare.Proofs.WrappedPFBs
 /-! # C04 — recorded blob share indexes are truthful and satisfy the alignment rule
 
 The statements live in `Proofs/C04Core.lean` (namespace `GoSquare.C04`: `every_blob_is_placed`,
@@ -18,5 +19,14 @@ theorem blobShareRange_returns_the_range (dec : Bytes → Decoded) (hdec : DecVa
           blobShareRange dec txs ((N.length + p : Nat) : Int) ((j : Nat) : Int) max thr =
             .ok (u32 idx, u32 idx + (sparseSeq blob).length) :=
   blobShareRange_spec dec hdec txs max thr hsz b0 hb0
+
+/-- **C04 (the index is recorded in the square).** `Square.WrappedPFBs` — parsing the square's own
+    pay-for-blob shares — returns exactly the marshalled wrappers `patched thr N B` in which
+    `recorded_index_is_truthful` locates every index; each unmarshals to itself (C19). -/
+theorem wrappedPFBs_are_the_recorded_wrappers (thr : Nat) (N : List Bytes) (B : List BlobTx) (ss : Nat)
+    (hv : ∀ t ∈ B, ∀ bl ∈ t.blobs, bl.BlobValid) (hu : ∀ t ∈ B, ∀ bl ∈ t.blobs, UserNs bl.ns)
+    (hB : B ≠ []) (hst2 : (unitStream ((patched thr N B).map (·.marshal))).length < 4294967296) :
+    wrappedPFBs (squareOf thr N B ss) = .ok ((patched thr N B).map (·.marshal)) :=
+  WrappedPFBs.wrappedPFBs_squareOf thr N B ss hv hu hB hst2
 
 end GoSquare.C04
